@@ -397,6 +397,19 @@ func (st *fstate) call(instr *ssa.Call, c *ssa.CallCommon, pos token.Pos) {
 					st.addContents(k, vals)
 				}
 			}
+			// append(x[:k], ...) certainly has spare capacity: the elements
+			// after k are overwritten in place, whoever else holds the array
+			if shortenedSlice(c.Args[0], map[ssa.Value]bool{}) {
+				nonFresh := oset{}
+				for k := range base {
+					if !strings.HasPrefix(k, "F:") && k != site {
+						nonFresh[k] = true
+					}
+				}
+				if len(nonFresh) > 0 {
+					st.store(nonFresh, vals, pos, "append into the shortened slice "+c.Args[0].Name()+" (overwrites the elements after its new length in place)")
+				}
+			}
 		case "copy":
 			if len(c.Args) == 2 {
 				vals := oset{}
@@ -513,4 +526,32 @@ func (st *fstate) elemTracked(t types.Type) bool {
 		return false // string
 	}
 	return true
+}
+
+// shortenedSlice: v is (on some path) x[:k] for a slice x, possibly through
+// phis, conversions and earlier appends to it.
+func shortenedSlice(v ssa.Value, seen map[ssa.Value]bool) bool {
+	if seen[v] || len(seen) > 40 {
+		return false
+	}
+	seen[v] = true
+	switch x := v.(type) {
+	case *ssa.Slice:
+		if _, isSlice := x.X.Type().Underlying().(*types.Slice); isSlice && x.High != nil {
+			return true
+		}
+	case *ssa.Phi:
+		for _, e := range x.Edges {
+			if shortenedSlice(e, seen) {
+				return true
+			}
+		}
+	case *ssa.ChangeType:
+		return shortenedSlice(x.X, seen)
+	case *ssa.Call:
+		if b, ok := x.Call.Value.(*ssa.Builtin); ok && b.Name() == "append" && len(x.Call.Args) > 0 {
+			return shortenedSlice(x.Call.Args[0], seen)
+		}
+	}
+	return false
 }
